@@ -206,12 +206,37 @@ def ret_cases(tier, seed):
                     f.set_correlation(x, y, corr[i][j] / float(den * den))
         f._np_prng = _StubNp(zs)
         steps = len(zs) * 2
-        prices = {i: f.get_fundamental_prices(market_id=ids[i], times=range(steps + 1)) for i in range(k)}
+        try:
+            prices = {i: f.get_fundamental_prices(market_id=ids[i], times=range(steps + 1)) for i in range(k)}
+        except Exception as ex:  # noqa: BLE001 - generation itself failed: judged as a failed case, not a harness error
+            out.append({"c": "stat", "what": "generation-raised-" + type(ex).__name__, "ok": False})
+            continue
         obs = []
         for s in range(steps):
             obs.append([int(round(math.log(prices[i][s + 1] / prices[i][s]) * 1e6)) for i in range(k)])
         out.append({"c": "ret", "den": den, "rows": rows, "corr": corr, "vols": vols, "drifts": drifts,
                     "zs": [zs[s % len(zs)] for s in range(steps)], "obs": obs})
+        if rng.random() < 0.6:
+            # the parameters change at the last time already handed out (volatility between two NON-ZERO values, drift):
+            # the value at that time stays, the returns after it follow the NEW parameters
+            t0 = steps
+            vols2 = [rng.choice([x for x in (1, 2, 4, 8, 16) if x != vols[i]]) if rng.random() < 0.7 else vols[i] for i in range(k)]
+            drifts2 = [rng.choice([0, 1, -2, 4]) if rng.random() < 0.4 else drifts[i] for i in range(k)]
+            try:
+                for i in range(k):
+                    if vols2[i] != vols[i]:
+                        f.change_volatility(market_id=ids[i], volatility=vols2[i] / 64.0, time=t0)
+                    if drifts2[i] != drifts[i]:
+                        f.change_drift(market_id=ids[i], drift=drifts2[i] / 1024.0, time=t0)
+                c0 = f._np_prng.calls
+                prices2 = {i: f.get_fundamental_prices(market_id=ids[i], times=range(t0, t0 + steps + 1)) for i in range(k)}
+            except Exception as ex:  # noqa: BLE001
+                out.append({"c": "stat", "what": "parameter-change-raised-" + type(ex).__name__, "ok": False})
+                continue
+            out.append({"c": "stat", "what": "value-at-change-time-altered", "ok": all(prices2[i][0] == prices[i][t0] for i in range(k))})
+            obs2 = [[int(round(math.log(prices2[i][s + 1] / prices2[i][s]) * 1e6)) for i in range(k)] for s in range(steps)]
+            out.append({"c": "ret", "den": den, "rows": rows, "corr": corr, "vols": vols2, "drifts": drifts2,
+                        "zs": [zs[(c0 + s) % len(zs)] for s in range(steps)], "obs": obs2})
     return out
 
 
@@ -231,7 +256,11 @@ def stat_cases(tier, seed):
             f.add_market(market_id=m, initial=100.0, drift=drifts[m], volatility=vols[m])
         if rho:
             f.set_correlation(*((0, 1) if c % 2 == 0 else (1, 0)), rho)
-        p = [np.asarray(f.get_fundamental_prices(market_id=m, times=range(T + 1))) for m in range(2)]
+        try:
+            p = [np.asarray(f.get_fundamental_prices(market_id=m, times=range(T + 1))) for m in range(2)]
+        except Exception as ex:  # noqa: BLE001
+            out.append({"c": "stat", "what": "generation-raised-" + type(ex).__name__, "ok": False})
+            continue
         r = [np.diff(np.log(x)) for x in p]
         for m in range(2):
             se_mean = vols[m] / math.sqrt(T)
